@@ -72,7 +72,7 @@ def calc_smooth_fa_spectrum(fa_frequencies, fa_spectrum, smooth_fa_frequencies=N
     wb_vals = np.where(amp_array == 0, 1, wb_vals)
     wb_vals /= np.sum(wb_vals, axis=0)
 
-    return np.sum(abs(fa_spectrum)[:, np.newaxis] * wb_vals, axis=0)
+    return np.sum(np.abs(fa_spectrum * 1.0)[:, np.newaxis] * wb_vals, axis=0)  # * 1.0: never take abs in an integer dtype
     # return np.dot(abs(fa_spectrum), wb_vals)
 
 
